@@ -15,7 +15,7 @@ def explain(case, verdict, runs):
     # a two-branch construct nested in a later branch (else / arm): what follows it in that branch is constrained in the sibling branches too
     if (verdict == "violation:conforming-use-rejected" and case["kind"] == "fin-shadow" and n["write"] == "aug"
             and n["form"].startswith(("outer-mut-after-match-arm-", "outer-mut-after-handle-arm-"))
-            and case["ctx"] and case["ctx"][-1] in ("else", "arm", "harm")
+            and any(w in ("else", "arm", "harm") for w in case["ctx"])
             and all((not r["ok"]) and r["errs"] and r["errs"][0].startswith("Cannot infer type within __add__") for r in runs)):
         return "KF-C07-2"
     return None
